@@ -19,6 +19,7 @@ func init() {
 			"R15.2 also: the text producer asks for encoding.TextMarshaler before any other interface of the value (sibling of the consumer's TextUnmarshaler-first). " +
 			"R15.1 also: the only deferred calls whose error is ignored are closes; R15.2 also: every Close invoked on the stream itself sits behind the closing option. " +
 			"R15.1 also: a consumer never reads a counted portion of its stream (CopyN, LimitReader, ReadFull), and the buffered bytes of the text / byte-stream consumers are not trimmed or rewritten before they are judged or stored. " +
+			"R15.6 also: the stream of the JSON / XML consumers is read by their decoder only. " +
 			"NOT decided: round-trip equality and chunk-exactness themselves (encoding/json, xml, yaml, bytes, io are trusted).",
 		Run: runC15,
 	})
